@@ -16,7 +16,11 @@ from .core import Check, run_tlc, tla
 LEVEL = "exploration"
 
 # type name -> (openapi property schema, [value1, value2], type-tree kind)
-SUB = {"type": "object", "properties": {"a": {"type": "string"}, "b": {"type": "integer"}}, "required": ["a"]}
+# the referenced model has a key that must be RENAMED (camelCase wire key -> snake_case field): a model reached only
+# through a map value / list item still needs its key-transform hooks
+SUB = {"type": "object", "properties": {"displayName": {"type": "string"}, "b": {"type": "integer"}}, "required": ["displayName"]}
+DOG = {"type": "object", "properties": {"kind": {"type": "string", "enum": ["dog", "puppy"]}, "bark": {"type": "string"}}, "required": ["kind"]}
+CAT = {"type": "object", "properties": {"kind": {"type": "string", "enum": ["cat"]}, "lives": {"type": "integer"}}, "required": ["kind"]}
 TYPES: dict[str, tuple[dict, list, dict]] = {}
 
 
@@ -24,7 +28,8 @@ def leaf(p: str) -> dict:
     return {"k": "leaf", "p": p, "of": [], "fields": []}
 
 
-SUBT = {"k": "obj", "p": "Sub", "of": [], "fields": [{"key": "a", "req": True, "ty": leaf("str")}, {"key": "b", "req": False, "ty": leaf("int")}]}
+SUBT = {"k": "obj", "p": "Sub", "of": [], "fields": [{"key": "displayName", "req": True, "ty": leaf("str")}, {"key": "b", "req": False, "ty": leaf("int")}]}
+DEEP = {"k": "deep", "p": "", "of": [], "fields": []}
 
 
 def _t(name, schema, vals, ty):
@@ -44,16 +49,25 @@ _t("time", {"type": "string", "format": "time"}, ["10:11:12", "23:59:59"], leaf(
 _t("email", {"type": "string", "format": "email"}, ["a@b.co", "x@y.org"], leaf("str"))
 _t("enum", {"type": "string", "enum": ["on", "off-line", "3rd"]}, ["on", "off-line"], leaf("enum"))
 _t("intenum", {"type": "integer", "enum": [1, 2, 5]}, [1, 5], leaf("intenum"))
-_t("ref", {"$ref": "#/components/schemas/Sub"}, [{"a": "s1", "b": 4}, {"a": "s2"}], SUBT)
+_t("ref", {"$ref": "#/components/schemas/Sub"}, [{"displayName": "s1", "b": 4}, {"displayName": "s2"}], SUBT)
 _t("liststr", {"type": "array", "items": {"type": "string"}}, [["p", "q"], []], {"k": "list", "p": "", "of": [leaf("str")], "fields": []})
-_t("listref", {"type": "array", "items": {"$ref": "#/components/schemas/Sub"}}, [[{"a": "s1"}, {"a": "s2", "b": 1}], [{"a": "only"}]], {"k": "list", "p": "", "of": [SUBT], "fields": []})
+_t("listref", {"type": "array", "items": {"$ref": "#/components/schemas/Sub"}}, [[{"displayName": "s1"}, {"displayName": "s2", "b": 1}], [{"displayName": "only"}]], {"k": "list", "p": "", "of": [SUBT], "fields": []})
 _t("mapint", {"type": "object", "additionalProperties": {"type": "integer"}}, [{"k1": 1, "k2": 2}, {"z": 0}], {"k": "map", "p": "", "of": [leaf("int")], "fields": []})
-_t("mapref", {"type": "object", "additionalProperties": {"$ref": "#/components/schemas/Sub"}}, [{"k1": {"a": "s1"}}, {"x": {"a": "s2", "b": 9}}], {"k": "map", "p": "", "of": [SUBT], "fields": []})
+_t("mapref", {"type": "object", "additionalProperties": {"$ref": "#/components/schemas/Sub"}}, [{"k1": {"displayName": "s1"}}, {"x": {"displayName": "s2", "b": 9}}], {"k": "map", "p": "", "of": [SUBT], "fields": []})
+_t("maplistref", {"type": "object", "additionalProperties": {"type": "array", "items": {"$ref": "#/components/schemas/Sub"}}}, [{"k1": [{"displayName": "s1"}, {"displayName": "s2", "b": 2}]}, {"x": []}],
+   {"k": "map", "p": "", "of": [{"k": "list", "p": "", "of": [SUBT], "fields": []}], "fields": []})
+# a discriminated union whose mapping sends TWO values to one schema
+_t("disc", {"oneOf": [{"$ref": "#/components/schemas/Dog"}, {"$ref": "#/components/schemas/Cat"}], "discriminator": {"propertyName": "kind", "mapping": {"dog": "#/components/schemas/Dog", "puppy": "#/components/schemas/Dog", "cat": "#/components/schemas/Cat"}}},
+   [{"kind": "dog", "bark": "woof"}, {"kind": "puppy", "bark": "yip"}], DEEP)
+_t("disc_cat", {"oneOf": [{"$ref": "#/components/schemas/Dog"}, {"$ref": "#/components/schemas/Cat"}], "discriminator": {"propertyName": "kind", "mapping": {"dog": "#/components/schemas/Dog", "puppy": "#/components/schemas/Dog", "cat": "#/components/schemas/Cat"}}},
+   [{"kind": "cat", "lives": 9}, {"kind": "cat", "lives": 1}], DEEP)  # every field present: the deep comparison knows no optionality
 _t("nullstr", {"type": "string", "nullable": True}, ["text", None], leaf("str"))
 _t("anyobj", {"type": "object", "additionalProperties": True}, [{"free": 1, "form": "x"}, {}], {"k": "map", "p": "", "of": [leaf("any")], "fields": []})
 
-STYLE_KEYS = {"plain": ["alpha", "beta"], "camel": ["fooBar", "bazQux"], "snake": ["foo_bar", "baz_qux"], "kebab": ["foo-bar", "baz-qux"], "keyword": ["class", "from"],
-              "builtin": ["id", "type"], "digit": ["1st", "2nd"], "upper": ["URL", "ID"], "collide": ["userId", "user_id"], "dotted": ["a.b", "c.d"], "space": ["first name", "last name"]}
+# third key of every style: a name that equals the SUFFIXED / ESCAPED form a de-collision or keyword rule derives from the first
+STYLE_KEYS = {"plain": ["alpha", "beta", "gamma"], "camel": ["fooBar", "bazQux", "foo_bar"], "snake": ["foo_bar", "baz_qux", "fooBar"], "kebab": ["foo-bar", "baz-qux", "foo_bar_2"],
+              "keyword": ["class", "from", "class_"], "builtin": ["id", "type", "id_"], "digit": ["1st", "2nd", "_1st"], "upper": ["URL", "ID", "url"],
+              "collide": ["userId", "user_id", "userId_2"], "dotted": ["a.b", "c.d", "a_b"], "space": ["first name", "last name", "first_name"]}
 
 
 def tag(j: Any) -> dict:
@@ -120,11 +134,13 @@ def build(sc: dict) -> tuple[dict, dict, dict]:
             v = vals[(sc["vi"] - 1 + i - 1) % 2]
             if v is None and p["req"]:
                 v = vals[0]
+            if p["ty"] == "str" and isinstance(v, str):
+                v = f"{v}#{i}"  # distinct per property: a value landing under a neighbour's key must be visible
             inst[key] = v
     m = {"type": "object", "properties": props}
     if required:
         m["required"] = required
-    doc = concretise.wrap({"Sub": SUB, "M": m}, {"/m": {"post": {"operationId": "postM", "requestBody": {"required": True, "content": {"application/json": {"schema": concretise.ref("M")}}}, "responses": {"200": {"description": "ok", "content": {"application/json": {"schema": concretise.ref("M")}}}}}}})
+    doc = concretise.wrap({"Sub": SUB, "Dog": DOG, "Cat": CAT, "M": m}, {"/m": {"post": {"operationId": "postM", "requestBody": {"required": True, "content": {"application/json": {"schema": concretise.ref("M")}}}, "responses": {"200": {"description": "ok", "content": {"application/json": {"schema": concretise.ref("M")}}}}}}})
     return doc, inst, {"k": "obj", "p": "M", "of": [], "fields": fields}
 
 
@@ -135,7 +151,8 @@ def run(chk: Check) -> None:
     styles = sorted(STYLE_KEYS)
     pair_styles = [["plain", "plain"], ["collide", "collide"], ["camel", "snake"], ["keyword", "keyword"]] if not thorough else [[a, a] for a in styles] + [["camel", "snake"], ["kebab", "keyword"]]
     mod = f"---- MODULE MC_Gen_Models ----\nEXTENDS Gen_Models\nMCPairStyles == {tla(set(tuple(p) for p in pair_styles)) if False else '{' + ', '.join(tla(p) for p in pair_styles) + '}'}\n====\n"
-    cfg = f"SPECIFICATION Spec\nCONSTANTS\n Types = {tla(set(types))}\n PairTypes = {tla(set(pair_types))}\n Styles = {tla(set(styles))}\n PairStyles <- MCPairStyles\n MaxProps = 2\nCHECK_DEADLOCK FALSE\n"
+    triple_styles = [st for st in styles if st != "plain"]
+    cfg = f"SPECIFICATION Spec\nCONSTANTS\n Types = {tla(set(types))}\n PairTypes = {tla(set(pair_types))}\n Styles = {tla(set(styles))}\n PairStyles <- MCPairStyles\n MaxProps = 2\n TripleStyles = {tla(set(triple_styles))}\nCHECK_DEADLOCK FALSE\n"
     r = run_tlc(chk.scratch, "MC_Gen_Models", cfg, files={"MC_Gen_Models.tla": mod}, workers=8)
     chk.add_tlc("Gen_Models", r)
     scen = sorted(r.printed.get("SCEN", []), key=lambda s: json.dumps(s, sort_keys=True))
